@@ -18,7 +18,7 @@ def _pool():
         if isinstance(n, str) and n not in names:
             names.append(n)
     for n in ["SHEEP", "WOLF", "sheep", "x", "", " ", "not an identifier", "a.b", "0", "None", "Tag1", "__foo__", "_private",
-              "self", "tag_id", "tag_name"]:
+              "self", "tag_id", "tag_name", "{x}", "cell{0}", "set{", "}", "{}", "%s", "100%"]:
         if n not in names:
             names.append(n)
     return names
@@ -46,6 +46,10 @@ def _ops_work(lib, names_expected):
     items = lib.itemize()
     if items != [(nm, i) for i, nm in enumerate(names_expected)]:
         return hx.fail("itemize()", got=items, exp=[(nm, i) for i, nm in enumerate(names_expected)])
+    # the returned list is the caller's: re-ordering it does not re-order the library
+    items.reverse()
+    if len(items) > 1 and lib.itemize() != [(nm, i) for i, nm in enumerate(names_expected)]:
+        return hx.fail("itemize() after the caller re-ordered an earlier result", got=lib.itemize())
     for i, nm in enumerate(names_expected):
         if lib.get_tag_name(i) != nm:
             return hx.fail("get_tag_name(id)", id=i, got=lib.get_tag_name(i), exp=nm)
